@@ -1,6 +1,6 @@
 """C27 -- thread-safe attributes lose no updates and never fail under concurrency."""
 import miros.thread_safe_attributes as TSA
-from vt import detsched as ds, wl_c27
+from vt import detsched as ds, wl_c27, sysx
 
 ID = 'C27'
 ENGINE = 'detsched'
@@ -11,10 +11,10 @@ RULE = ('2-4 real threads execute 1-3 statements each on one shared object: o.a 
         'PCT schedules; a thread that raises, a quiescent state with an unfinished thread (deadlock), a read that returns a value no serial '
         'order can produce, or a final value outside the set of final values of all serial orders of the same statements (computed by '
         'dynamic programming over the interleavings of whole statements) is a violation. distinct_nontrivial = distinct context-switch '
-        'sequences of runs mixing >= 2 statement kinds')
+        'sequences of runs mixing >= 2 statement kinds. ' + sysx.RULE_TEXT % (1, 2))
 CASES = {'quick': 2500, 'thorough': 150000}
-BUDGET = {'quick': 50, 'thorough': 300}
-REQUIRE = {'runs': 1000, 'runs_mixing_plain_and_augmented': 300, 'switch_between_get_and_set': 200}
+BUDGET = {'quick': 150, 'thorough': 600}
+REQUIRE = {'runs': 1000, 'runs_mixing_plain_and_augmented': 300, 'switch_between_get_and_set': 200, 'systematic_schedules': 500, 'systematic_scenarios_exhausted': 2}
 ASSUME = ['statement-level atomicity is the reference: the set of legal outcomes is that of all serial orders of whole statements']
 ANNOUNCE_CASES = True
 
@@ -47,13 +47,21 @@ def serial_outcomes(plans):
   return go(tuple(0 for _ in plans), 0)
 
 
+SYS = {'quick': (8, 1, 3000, 75.0), 'thorough': (32, 2, 100000, 150.0)}     # systematic cases, preemption bound, schedule cap, seconds cap (per scenario)
+
+
 def run_case(ctx, n):
+  sysx.run_case(ctx, n, SYS, scenario)
+
+
+def scenario(ctx, n):
   rng = ctx.rng('case', n)
-  nthreads = rng.randint(2, 4)
+  small = getattr(ctx, 'small', False)
+  nthreads = 2 if small else rng.randint(2, 4)
   plans = []
   for t in range(nthreads):
     plan = []
-    for _ in range(rng.randint(1, 3)):
+    for _ in range((1 if ctx.tier == 'quick' else rng.randint(1, 2)) if small else rng.randint(1, 3)):
       op = rng.choice(['+=', '+=', '-=', '*=', '=', '=', 'read', 'b+='])
       plan.append((op, {'+=': rng.randint(1, 9), '-=': rng.randint(1, 9), '*=': rng.randint(2, 3), '=': rng.randint(10, 99), 'read': None, 'b+=': rng.randint(1, 9)}[op]))
     plans.append(tuple(plan))
